@@ -10,7 +10,7 @@ SOURCES = ["dagrt/codegen/dag_ast.py"]
 RULE = ("exhaustive: every tree over {leaf, null, empty block, if, if/else, block of 1-3 children} with <= N nodes "
         "(N=5 quick, 6 thorough) and conditions {True, False, p0, not p0, p1, not not p0}; random: trees of up to 40 nodes "
         "incl. for-loops and blocks of up to 5 children. Compared: exact result tree / exception class of simplify_ast vs. "
-        "the Lean model. Oracle: leaf trace under all valuations of p0,p1 (loop trip count 2) before vs. after, exceptions fail. "
+        "the Lean model, and the callback sequence of the generic walker lower_node on the result. Oracle: walker must not fail; leaf trace under all valuations of p0,p1 (loop trip count 2) before vs. after, exceptions fail. "
         "Non-trivial: the simplified tree differs from the input tree.")
 TRUSTED = ["modelled, not verified: pymbolic's `==` on Variable/LogicalNot (structural equality) and `is True/False` on conditions"]
 
@@ -26,6 +26,8 @@ def enum(size):
     for c in range(len(CONDS)):
         for s in enum(size - 1):
             out.append(("T", c, s))
+    for s in enum(size - 1):
+        out.append(("O", s))
     for c in range(4):
         for k in range(1, size - 1):
             for a in enum(k):
@@ -57,6 +59,8 @@ def number(t, ctr):
         return ["L", ctr[0]]
     if t[0] == "T":
         return ["T", CONDS[t[1]], number(t[2], ctr)]
+    if t[0] == "O":
+        return ["O", 0, number(t[1], ctr)]
     if t[0] == "I":
         a = number(t[2], ctr)
         b = number(t[3], ctr)
@@ -175,10 +179,44 @@ def to_js(a):
     raise ValueError(type(a).__name__)
 
 
+def make_walker():
+    from dagrt.codegen.codegen_base import StructuredCodeGenerator
+
+    class Walker(StructuredCodeGenerator):
+        def __init__(self):
+            self.evs = []
+
+        def lower_inst(self, inst):
+            self.evs.append(["inst", inst])
+
+        def emit_if_begin(self, expr):
+            self.evs.append(["if", cond_js(expr)])
+
+        def emit_if_end(self):
+            self.evs.append("endif")
+
+        def emit_else_begin(self):
+            self.evs.append("else")
+
+        def emit_for_begin(self, name, lo, hi):
+            self.evs.append(["for", int(name[1:])])
+
+        def emit_for_end(self, name):
+            self.evs.append(["endfor", int(name[1:])])
+    return Walker()
+
+
 def impl(case):
     from dagrt.codegen.dag_ast import simplify_ast
     try:
-        return {"ok": to_js(simplify_ast(to_py(case["ast"])))}
+        res = simplify_ast(to_py(case["ast"]))
+        w = make_walker()
+        try:
+            w.lower_node(res)
+            walk = w.evs
+        except ValueError:
+            walk = "ValueError"
+        return {"ok": to_js(res), "walk": walk}
     except RecursionError:
         return {"err": "RecursionError"}
     except Exception as e:
@@ -219,6 +257,8 @@ def trace(a, v, out):
 def oracle(case, out):
     if "ok" not in out:
         return {"what": f"simplify_ast raised {out.get('err') or out}", "sig": "raises"}
+    if out.get("walk") == "ValueError":
+        return {"what": f"the structured back ends' walker (lower_node) has no case for a node of the simplified program {out['ok']}", "sig": "walker"}
     for v in itertools.product([False, True], repeat=3):
         t0, t1 = [], []
         trace(case["ast"], v, t0)
